@@ -71,14 +71,15 @@ func (sv structValue) findField(name string) (*reflect.StructField, bool) {
 	if sr.Kind() == reflect.Ptr {
 		sr = sr.Elem()
 	}
-	if field, ok := sr.FieldByName(name); ok {
+	// only exported fields are properties: the value of an unexported field cannot be read
+	if field, ok := sr.FieldByName(name); ok && field.PkgPath == "" {
 		if _, ok := field.Tag.Lookup(tagKey); !ok {
 			return &field, true
 		}
 	}
 	for i, n := 0, sr.NumField(); i < n; i++ {
 		field := sr.Field(i)
-		if field.Tag.Get(tagKey) == name {
+		if field.PkgPath == "" && field.Tag.Get(tagKey) == name {
 			return &field, true
 		}
 	}
